@@ -101,10 +101,14 @@ class Sim:
     def run_others(self, n, max_dt=None):
         return self.k.run_others(n, max_dt)
 
+    def focus(self, n=1):
+        self.k.focus(n)
+
     def spawn(self, fn, name, role="harness"):
         t = facades.Thread(target=fn, name=name)
         t.role = role
         t.start()
+        self.k.focus(1)     # an application thread starts: concurrency begins here
         return t
 
     def wait_until(self, pred, timeout, poll=0.05):
@@ -113,6 +117,9 @@ class Sim:
         if cfg:
             # injected thread stalls may delay whatever is awaited: allow for the largest possible total
             timeout += cfg.get("max", 0) * max(cfg.get("durs", [0.0]))
+        cfg = self.k.sync_stall_cfg
+        if cfg:
+            timeout += cfg.get("n", 1) * max(cfg.get("durs", [0.0]))
         end = self.k.now + timeout
         self.k.settle()
         while not pred():
